@@ -1444,7 +1444,13 @@ pub fn seed_model_loaded(w: &mut World, version: AutosarVersion) -> Option<usize
         // package p1: what each file knows about it
         ["<LONG-NAME><L-4 L=\"EN\">first</L-4></LONG-NAME><ELEMENTS><SYSTEM><SHORT-NAME>s1</SHORT-NAME></SYSTEM></ELEMENTS>", "<AR-PACKAGES><AR-PACKAGE><SHORT-NAME>sub</SHORT-NAME></AR-PACKAGE></AR-PACKAGES>", "<CATEGORY>cat</CATEGORY>"],
         // package shared
-        ["<ELEMENTS><ECU-INSTANCE><SHORT-NAME>e</SHORT-NAME></ECU-INSTANCE></ELEMENTS>", "<ELEMENTS><ECU-INSTANCE><SHORT-NAME>e</SHORT-NAME></ECU-INSTANCE><I-SIGNAL><SHORT-NAME>i</SHORT-NAME></I-SIGNAL></ELEMENTS>", ""],
+        // (the same elements in more than one file: an identifiable element inside mixed content, a SYSTEM whose first reference
+        // is repeated by the second file - merged away, which leaves a dead entry in the referrer list - followed by a second one)
+        [
+            "<DESC><L-2 L=\"EN\">see <XREF-TARGET><SHORT-NAME>anchor</SHORT-NAME></XREF-TARGET> there</L-2></DESC><ELEMENTS><ECU-INSTANCE><SHORT-NAME>e</SHORT-NAME></ECU-INSTANCE><SYSTEM><SHORT-NAME>sys</SHORT-NAME><FIBEX-ELEMENTS><FIBEX-ELEMENT-REF-CONDITIONAL><FIBEX-ELEMENT-REF DEST=\"ECU-INSTANCE\">/shared/e</FIBEX-ELEMENT-REF></FIBEX-ELEMENT-REF-CONDITIONAL></FIBEX-ELEMENTS></SYSTEM></ELEMENTS>",
+            "<DESC><L-2 L=\"EN\">see <XREF-TARGET><SHORT-NAME>anchor</SHORT-NAME></XREF-TARGET> there</L-2></DESC><ELEMENTS><ECU-INSTANCE><SHORT-NAME>e</SHORT-NAME></ECU-INSTANCE><I-SIGNAL><SHORT-NAME>i</SHORT-NAME></I-SIGNAL><SYSTEM><SHORT-NAME>sys</SHORT-NAME><FIBEX-ELEMENTS><FIBEX-ELEMENT-REF-CONDITIONAL><FIBEX-ELEMENT-REF DEST=\"ECU-INSTANCE\">/shared/e</FIBEX-ELEMENT-REF></FIBEX-ELEMENT-REF-CONDITIONAL><FIBEX-ELEMENT-REF-CONDITIONAL><FIBEX-ELEMENT-REF DEST=\"ECU-INSTANCE\">/shared/e</FIBEX-ELEMENT-REF></FIBEX-ELEMENT-REF-CONDITIONAL></FIBEX-ELEMENTS></SYSTEM></ELEMENTS>",
+            "",
+        ],
         // package only in some files
         ["", "<ELEMENTS><I-SIGNAL><SHORT-NAME>only</SHORT-NAME></I-SIGNAL></ELEMENTS>", "<ELEMENTS><I-SIGNAL><SHORT-NAME>only</SHORT-NAME></I-SIGNAL><I-SIGNAL><SHORT-NAME>third</SHORT-NAME></I-SIGNAL></ELEMENTS>"],
     ];
